@@ -278,7 +278,26 @@ class Elab:
                     self.unsupported = "slab/fault composition model " + m["model"]
             arms.append("KComp -> Some (MComp %s)" % mlist(cs))
         if "grains models" in d:
-            arms.append("KGrains -> Some MGrains")
+            gs = []
+            for m in d["grains models"]:
+                mn, mx = ml(m.get(kmin, 0.0)), ml(m.get(kmax, DMAX))
+                comps = mlist([nlit(c) for c in m["compositions"]])
+                if m["model"] == "uniform" and "rotation matrices" in m:
+                    mats = [[x for row in mat for x in row] for mat in m["rotation matrices"]]
+                    gs.append("SGUniform (%s, %s, %s, %s, %s)" % (mn, mx, comps, mlist([mlist([ml(x) for x in mat]) for mat in mats]),
+                                                                mlist([ml(x) for x in m["grain sizes"]])))
+                elif m["model"] in ("random uniform distribution", "random uniform distribution deflected") and \
+                        ("basis rotation matrices" in m or m["model"] == "random uniform distribution"):
+                    self.uses_random = True
+                    defl = "None"
+                    if m["model"].endswith("deflected"):
+                        bs = [[x for row in mat for x in row] for mat in m["basis rotation matrices"]]
+                        defl = "Some (%s, %s)" % (mlist([ml(x) for x in m["deflections"]]), mlist([mlist([ml(x) for x in b]) for b in bs]))
+                    gs.append("SGRandom (%s, %s, %s, %s, %s, %s)" % (mn, mx, comps, mlist([ml(x) for x in m["grain sizes"]]),
+                                                                   mlist(["true" if b else "false" for b in m["normalize grain sizes"]]), defl))
+                else:
+                    self.unsupported = "slab/fault grains model " + m["model"]
+            arms.append("KGrains -> Some (MGrains %s)" % mlist(gs))
         if "velocity models" in d:
             vs = []
             for m in d["velocity models"]:
@@ -323,7 +342,7 @@ class Elab:
                 "true" if fault else "false", mlist([mpt(c) for c in self.coords(f["coordinates"])]), mpt((float(f["dip point"][0]), float(f["dip point"][1]))),
                 ml(f.get("min depth", 0.0)), ml(f.get("max depth", DMAX)), layout, ml(float(ti)))
         self.line_terms[f.get("name", str(idx))] = lt
-        return "line_to_feature n g " + lt
+        return "line_to_feature n g tape " + lt
 
     def feature(self, f, idx):
         if f["model"] in ("continental plate", "oceanic plate", "mantle layer"):
@@ -768,7 +787,7 @@ class Gen:
         if r.random() < p:
             out["composition models"] = [self.slab_comp_model(kind) for _ in range(r.choice([1, 1, 2]))]
         if r.random() < 0.3:
-            gm = self.grains_model(0, 1e5)
+            gm = self.grains_model(0, 1e5) if (r.random() < 0.6 or not getattr(self, "slab_random_grains", False)) else self.random_grains_model(0, 1e5)
             gm.pop("max depth", None)
             out["grains models"] = [gm]
         if r.random() < 0.3:
